@@ -170,7 +170,8 @@ class C09Antenna(Machine):
             op = {"op": "receive", "w": w, "amp": rng.pick([0.1, 0.5, 1.0, 3.0]),
                   "center": rng.random(), "width": rng.pick([1.5, 4.0, 10.0]),
                   "vtype": rng.pick(["voltage", "field"]), "pair": rng.chance(0.3),
-                  "direction": rng.pick([None, [1, 0, 0.3], [0.2, -1, 0.5]])}
+                  "direction": rng.pick([None, [1, 0, 0.3], [0.2, -1, 0.5]]),
+                  "sharp": rng.chance(0.4)}
             if self.cfg["kind"] == "dipole":
                 op["amp"] *= 1e-5
             return op
@@ -182,7 +183,7 @@ class C09Antenna(Machine):
         if k == "clear":
             return {"op": "clear", "reset_noise": rng.chance(0.4)}
         if k == "bad_receive":
-            return {"op": "bad_receive", "how": rng.pick(["count", "count2", "type", "type_second"]),
+            return {"op": "bad_receive", "how": rng.pick(["count", "count2", "type", "type_second", "grid_second"]),
                     "w": self._window_spec(rng, "base")}
         if k == "trigger_fault":
             return {"op": "trigger_fault", "nth": rng.randint(1, 3)}
@@ -197,7 +198,9 @@ class C09Antenna(Machine):
         # taper to exactly zero at both ends: a signal that jumps at the edge of
         # its window would make the answer depend on rounding-level differences
         # between time grids (zero outside, value inside)
-        vals = vals * np.sin(np.pi * np.arange(len(t)) / max(len(t) - 1, 1)) ** 2
+        # (only antenna systems evaluate signals on a lead-in grid of their own)
+        if self.cfg["kind"] == "system" or not op.get("sharp"):
+            vals = vals * np.sin(np.pi * np.arange(len(t)) / max(len(t) - 1, 1)) ** 2
         vt = getattr(P.Signal.Type, op["vtype"])
         return P.Signal(t, vals, value_type=vt), t
 
@@ -293,6 +296,9 @@ class C09Antenna(Machine):
             call = lambda: self.obj.receive((good, good), polarization=([0, 0, 1],))
         elif how == "count2":
             call = lambda: self.obj.receive((good, good), polarization=None)
+        elif how == "grid_second":
+            other = P.Signal(t + 3 * self.cfg["dt"], np.ones(len(t)), value_type=P.Signal.Type.voltage)
+            call = lambda: self.obj.receive((good, other), polarization=([0, 0, 1], [0, 1, 0]))
         elif how == "type":
             call = lambda: self.obj.receive(bad)
         else:
